@@ -130,7 +130,6 @@ func runFree(c *core.Case) {
 		return
 	}
 
-
 	var sendsMu sync.Mutex
 	var sends []*sendRec
 	var wg sync.WaitGroup
